@@ -1,11 +1,165 @@
 package main
 
 import (
+	"flag"
 	"fmt"
-
-	_ "golang.org/x/tools/go/packages"
-	_ "golang.org/x/tools/go/ssa"
-	_ "golang.org/x/tools/go/ssa/ssautil"
+	"os"
+	"runtime"
+	"strings"
 )
 
-func main() { fmt.Println("xvc") }
+const defaultRepo = "/repo"
+const verifDir = "/verif"
+
+func loadWorld(repo string) (*World, error) {
+	contracts, overlay, err := readContracts(repo, verifDir+"/contracts")
+	if err != nil {
+		return nil, err
+	}
+	w1, err := loadRepo(repo, overlay)
+	if err != nil {
+		return nil, err
+	}
+	gen, err := genClauseFiles(w1, contracts)
+	if err != nil {
+		return nil, err
+	}
+	for k, v := range gen {
+		overlay[k] = v
+	}
+	w, err := loadRepo(repo, overlay)
+	if err != nil {
+		// show the generated files to make clause errors readable
+		return nil, fmt.Errorf("%v\n(while type-checking generated clause functions)", err)
+	}
+	if err := attachClauses(w, contracts); err != nil {
+		return nil, err
+	}
+	w.Gen = gen
+	return w, nil
+}
+
+func main() {
+	if len(os.Args) < 2 {
+		fmt.Fprintln(os.Stderr, "usage: xvc check <id> [--tier quick|thorough] | fn <key>... | list | gen")
+		os.Exit(2)
+	}
+	cmd := os.Args[1]
+	fs := flag.NewFlagSet(cmd, flag.ExitOnError)
+	repo := fs.String("repo", defaultRepo, "repository root")
+	tier := fs.String("tier", "quick", "quick|thorough")
+	keep := fs.String("keep", "", "directory to keep SMT scripts in")
+	timeout := fs.Int("timeout", 0, "per-check timeout ms")
+	verbose := fs.Bool("v", false, "verbose")
+	var pos []string
+	args := os.Args[2:]
+	// allow flags after positional args
+	for len(args) > 0 {
+		fs.Parse(args)
+		rest := fs.Args()
+		if len(rest) == 0 {
+			break
+		}
+		pos = append(pos, rest[0])
+		args = rest[1:]
+	}
+	if t := os.Getenv("VERIF_TIER"); t != "" && *tier == "quick" {
+		*tier = t
+	}
+	opt := Options{TimeoutMS: 10000, Workers: runtime.NumCPU(), KeepDir: *keep, Thorough: *tier == "thorough"}
+	if opt.Thorough {
+		opt.TimeoutMS = 60000
+	}
+	if *timeout > 0 {
+		opt.TimeoutMS = *timeout
+	}
+	switch cmd {
+	case "gen":
+		w, err := loadWorld(*repo)
+		if err != nil {
+			fmt.Fprintln(os.Stderr, "ENGINE-ERROR:", err)
+			os.Exit(2)
+		}
+		for k, v := range w.Gen {
+			fmt.Printf("// ---- %s\n%s\n", k, v)
+		}
+	case "list":
+		w, err := loadWorld(*repo)
+		if err != nil {
+			fmt.Fprintln(os.Stderr, "ENGINE-ERROR:", err)
+			os.Exit(2)
+		}
+		for _, k := range sortedKeys(w.Funcs) {
+			c := ""
+			if con := w.Contracts[k]; con != nil {
+				c = " [contract: " + strings.Join(con.Props, ",") + "]"
+			}
+			fmt.Println(k + c)
+		}
+	case "fn":
+		w, err := loadWorld(*repo)
+		if err != nil {
+			fmt.Fprintln(os.Stderr, "ENGINE-ERROR:", err)
+			os.Exit(2)
+		}
+		bad := false
+		for _, k := range pos {
+			r := w.verifyFn(k, opt)
+			printFnResult(r, *verbose)
+			if r.Err != "" {
+				bad = true
+			}
+			for _, o := range r.Obs {
+				if o.Status != "proved" {
+					bad = true
+				}
+			}
+		}
+		if bad {
+			os.Exit(1)
+		}
+	case "check":
+		if len(pos) != 1 {
+			fmt.Fprintln(os.Stderr, "usage: xvc check <property id>")
+			os.Exit(2)
+		}
+		os.Exit(runCheck(*repo, pos[0], *tier, opt, *verbose))
+	default:
+		fmt.Fprintln(os.Stderr, "unknown command", cmd)
+		os.Exit(2)
+	}
+}
+
+func printFnResult(r *FnResult, verbose bool) {
+	fmt.Printf("== %s  paths=%d  %dms  smt=%dkB mode=%s\n", r.Key, r.Paths, r.WallMS, r.SMTBytes/1024, r.Mode)
+	if r.Err != "" {
+		fmt.Printf("   ERROR: %s\n", r.Err)
+	}
+	for _, o := range r.Obs {
+		if o.Status == "proved" && !verbose {
+			continue
+		}
+		fmt.Printf("   %-8s %s  (%d inst, %s, %dms) %s\n", o.Status, o.Name, o.Instances, o.Solver, o.TimeMS, o.Detail)
+		if o.Status == "refuted" && verbose {
+			fmt.Println(indent(trimModel(o.Model), "      "))
+		}
+	}
+	n := 0
+	for _, o := range r.Obs {
+		if o.Status == "proved" {
+			n++
+		}
+	}
+	fmt.Printf("   %d/%d obligations proved\n", n, len(r.Obs))
+}
+
+func indent(s, p string) string {
+	return p + strings.ReplaceAll(s, "\n", "\n"+p)
+}
+
+func trimModel(s string) string {
+	if len(s) > 6000 {
+		return s[:6000] + "\n..."
+	}
+	return s
+}
